@@ -749,7 +749,7 @@ void execute(const Plan& plan) {
         if (hm != kHandlerNone && op.kind != kBadNamedLabel && op.kind != kBadSection) {
           if (r.handler_calls == 0) sim::count("c14.probe.error_without_handler_call"); else if (r.handler_calls > 1) sim::count("c14.probe.handler_called_more_than_once");
           // The statement requires the error to be reported through the return value AND the attached handler.
-          if (op.kind == kCall || op.kind == kA64Form || op.kind == kX86ShortJump || op.kind == kX86Locked || op.kind == kX86ZMask || op.kind == kTooManyOperands || op.kind == kX86AbsAddr || op.kind == kX86BadRegId || op.kind == kX86FarJcc || op.kind == kValidStep) SIM_CHECK(r.handler_calls >= 1, "c14:error-not-reported-to-handler", "%s returned error %u but the attached error handler was never invoked", op_name(op.kind), unsigned(r.err));
+          if (op.kind == kBadBind || op.kind == kBadAlign || op.kind == kBadEmbedLabel || op.kind == kBadEmbedDelta || op.kind == kBadEmbedArray || op.kind == kBadSetOffset || op.kind == kCall || op.kind == kA64Form || op.kind == kX86ShortJump || op.kind == kX86Locked || op.kind == kX86ZMask || op.kind == kTooManyOperands || op.kind == kX86AbsAddr || op.kind == kX86BadRegId || op.kind == kX86FarJcc || op.kind == kValidStep) SIM_CHECK(r.handler_calls >= 1, "c14:error-not-reported-to-handler", "%s returned error %u but the attached error handler was never invoked", op_name(op.kind), unsigned(r.err));
         }
       }
       else {
